@@ -7,17 +7,17 @@ git -C /repo worktree add --detach $wt HEAD -q || exit 2
 mkdir -p $wt/$pkg; cp $out/demo${k}_test.go $wt/$pkg/zz_demo${k}_test.go
 cd $wt
 export GOFLAGS=-mod=mod GOPROXY=off
-go test $VAL_EXTRA -count=1 -run "$tname" ./$pkg/ > /tmp/val_clean.log 2>&1; rc_clean=$?
+go test $VAL_EXTRA -count=1 -run "$tname" ./$pkg/ > /tmp/val_clean_$$.log 2>&1; rc_clean=$?
 git apply $out/patch$k.diff || { echo "PATCH FAILS TO APPLY"; cd /; git -C /repo worktree remove --force $wt; exit 2; }
 go build ./... || { echo "BUILD FAILS"; cd /; git -C /repo worktree remove --force $wt; exit 2; }
-go test $VAL_EXTRA -count=1 -run "$tname" ./$pkg/ > /tmp/val_patched.log 2>&1; rc_patched=$?
+go test $VAL_EXTRA -count=1 -run "$tname" ./$pkg/ > /tmp/val_patched_$$.log 2>&1; rc_patched=$?
 rm $wt/$pkg/zz_demo${k}_test.go
-go test -count=1 ./... > /tmp/val_suite.log 2>&1
-fails=$(grep -E "^(--- FAIL|FAIL)" /tmp/val_suite.log | grep -v -E "TestParseRedirAddr|internal/server\s|internal/test|^FAIL$" | head -5)
+go test -count=1 ./... > /tmp/val_suite_$$.log 2>&1
+fails=$(grep -E "^(--- FAIL|FAIL)" /tmp/val_suite_$$.log | grep -v -E "TestParseRedirAddr|internal/server\s|internal/test|^FAIL$" | head -5)
 if [ -n "$fails" ]; then
   # wall-clock tests flake when the machine is loaded: re-run the failing top-level tests in isolation, three times
-  names=$(grep -E "^--- FAIL" /tmp/val_suite.log | grep -v TestParseRedirAddr | sed -E 's/--- FAIL: ([A-Za-z0-9_]+).*/\1/' | sort -u | tr '\n' '|' | sed 's/|$//')
-  if go test -count=3 -run "^($names)$" ./... > /tmp/val_suite2.log 2>&1; then fails=""; echo "(suite failures [$names] did not recur in 3 isolated runs: load flake)"; fi
+  names=$(grep -E "^--- FAIL" /tmp/val_suite_$$.log | grep -v TestParseRedirAddr | sed -E 's/--- FAIL: ([A-Za-z0-9_]+).*/\1/' | sort -u | tr '\n' '|' | sed 's/|$//')
+  if go test -count=3 -run "^($names)$" ./... > /tmp/val_suite2_$$.log 2>&1; then fails=""; echo "(suite failures [$names] did not recur in 3 isolated runs: load flake)"; fi
 fi
 echo "demo on HEAD rc=$rc_clean (want 0); demo with patch rc=$rc_patched (want !=0); unexpected suite failures: [$fails]"
 cd /
